@@ -123,6 +123,16 @@ def check_atomic(ctx: Ctx, rule: str, fns: List[FuncInfo]) -> int:
                             final = norm(m.args[1])
                             moved = isinstance(m.args[1], ast.Name) and m.args[1].id in params
                 ok = is_tmp and moved
+                # the temporary is opened TRUNCATING: exclusive creation ('x') or appending ('a') makes a temporary left behind by a
+                # crash in the middle of an earlier save fatal (FileExistsError) or part of the next file
+                bad_modes = [m_ for m_ in mode.split(',') if 'x' in m_ or 'a' in m_]
+                if ok and bad_modes:
+                    ctx.obligation(rule, construct + ':open(%s)' % mode, False, {'opened': target, 'mode': mode})
+                    ctx.violation(rule, construct, 'opens the temporary `%s` with mode %r: a temporary file left behind by an interruption in the '
+                                  'middle of an earlier save then makes every later save %s' % (
+                                      target, bad_modes[0], 'raise FileExistsError (the restart fails)' if 'x' in bad_modes[0]
+                                      else 'append to the stale content (the file cannot be loaded)'), fn.path, c.lineno, operand='open-mode')
+                    continue
                 ctx.obligation(rule, construct + ':open(%s)' % mode, ok,
                                {'opened': target, 'temporary': is_tmp, 'moved_onto': final})
                 if not ok:
